@@ -1,4 +1,4 @@
-use std::{mem::transmute, str::FromStr};
+use std::mem::transmute;
 
 use crate::{
     collections::{
@@ -21,6 +21,50 @@ pub struct Labels(pub HandleTable<Label>);
 pub struct Variables {
     pub ids: HandleTable<VariableId>,
     pub names: HandleTable<VarName>,
+}
+
+impl Variables {
+    /// Handle under which `name` is looked up at the given attempt. Names are keyed by a 32-bit
+    /// hash, so two different names may share a handle; the later one moves on to the next attempt.
+    fn probe(name: &str, attempt: u8) -> Handle {
+        if attempt == 0 {
+            Handle::from_bytes(name.as_bytes())
+        } else {
+            Handle::from_bytes_iter([name.as_bytes(), &[0xff, attempt][..]].into_iter())
+        }
+    }
+
+    /// Id of the variable called `name`
+    pub fn id_of(&self, name: &str) -> Option<VariableId> {
+        for attempt in 0..=u8::MAX {
+            let id = *self.ids.get(Self::probe(name, attempt))?;
+            match self.names.get(Handle::from_u32(id.0)) {
+                Some(n) if n.as_str() != name => continue,
+                _ => return Some(id),
+            }
+        }
+        None
+    }
+
+    /// Id of the variable called `name`; a new name is registered with the id `next()` returns
+    pub(crate) fn id_or_insert_with(
+        &mut self,
+        name: &str,
+        next: impl FnOnce() -> VariableId,
+    ) -> Option<VariableId> {
+        if let Some(id) = self.id_of(name) {
+            return Some(id);
+        }
+        let handle = (0..=u8::MAX)
+            .map(|attempt| Self::probe(name, attempt))
+            .find(|h| !self.ids.contains(*h))?;
+        let id = next();
+        self.ids.entry(handle).or_insert_with(|| id);
+        self.names
+            .entry(Handle::from_u32(id.0))
+            .or_insert_with(|| name.to_string());
+        Some(id)
+    }
 }
 
 #[derive(Debug, Clone, Default)]
@@ -67,10 +111,7 @@ pub struct CaoCompiledProgram {
 
 impl CaoCompiledProgram {
     pub fn variable_id(&self, name: &str) -> Option<VariableId> {
-        self.variables
-            .ids
-            .get(Handle::from_str(name).unwrap())
-            .copied()
+        self.variables.id_of(name)
     }
 
     pub fn print_disassembly(&self) {
